@@ -44,8 +44,10 @@ CORRUPTIONS = ["flip-message", "flip-signature", "flip-tweak", "flip-key", "swap
 
 def shards(tier, seed):
     if tier == "quick":
-        return [{"seed": seed * 1000 + i, "n": 14} for i in range(16)]
-    return [{"seed": seed * 1000 + i, "n": 260} for i in range(32)]
+        return [{"seed": seed * 1000 + i, "python_O": i % 3 == 2,
+                 "n": 14} for i in range(16)]
+    return [{"seed": seed * 1000 + i, "python_O": i % 3 == 2,
+                 "n": 260} for i in range(32)]
 
 
 def flip(hexstr, rng):
